@@ -46,6 +46,8 @@ class Recorder:
         self.snaps = []       # (k, env)
         self.handled = []     # exception class names
         self.extra = False
+        self.shared_exc = False
+        self.exc_cache = {}
         self.carrier = None   # Python carrier of the sequences that tal:repeat iterates (list by default)
         self.rep_ks = set()
 
@@ -56,6 +58,7 @@ class Recorder:
         self.handled = []
         self.extra = False
         self.raised = None
+        self.exc_cache = {}
         self.tcalls = []
         for ev in log:
             if ev["ev"] == "call":
@@ -69,7 +72,11 @@ class Recorder:
             return None
         r = q.pop(0)
         if r["t"] == "exc":
-            self.raised = C.make_exc(r["c"])
+            if self.shared_exc:
+                # a failing lookup that is memoised by the application: the very same exception object every time
+                self.raised = self.exc_cache.setdefault(r["c"], C.make_exc(r["c"]))
+            else:
+                self.raised = C.make_exc(r["c"])
             raise self.raised
         v = self.vf.make(r)
         if self.carrier and k in self.rep_ks and r["t"] == "seq" and not r.get("once"):
@@ -173,6 +180,7 @@ class Replayer:
         self.sites = site_of_calls(p)
         self.options = dict(options or {})
         self.rec.carrier = self.options.pop("_carrier", None)
+        self.rec.shared_exc = (perm % 2 == 1)
         self.rec.rep_ks = {k for k, site in self.sites.items() if site[1] == "rep"}
         self.variant = variant or self.options.pop("_translate_variant", None)
         if self.variant:
